@@ -102,6 +102,10 @@ def fold(e, rng: random.Random, p=0.7, max_layers=4, _layer=0, stats=None):
                 continue
             if sigma is None:
                 continue
+            # only admissible applications: the arguments respect the constraints of the definition's metavariables
+            # (functional(x0) would instantiate a metavariable that declares x0 fresh with x0)
+            if any(tb.check_constraints_doc(m, sigma[i]) for i, nodes in tb.metavars(de).items() if i in sigma for m in nodes):
+                continue
             # the match must rebuild e exactly (it does for substitution-free definitions)
             args = []
             for i in range(n.arity):
